@@ -344,3 +344,31 @@ Proof.
   intros d n tr E. split; [apply json_inv_init|].
   destruct (trace_steps_of d n _ tr (json_inv_init d) E) as [_ Hs]. apply (steps_inv d tr _ Hs).
 Qed.
+
+(* ---------------------------------------------------------------------------------------------- *)
+(* the state stack is exactly the documented state machine run on the GrammarTypes returned *)
+
+Lemma st_rel_next st g st' : st_rel st g st' -> st_next st g = Some st'.
+Proof.
+  intros H. destruct H; try reflexivity.
+  unfold st_next. destruct H as [->|[->| ->]]; cbn [G_Literal G_Number G_String G_StartObject G_StartArray
+    G_EndObject G_EndArray Z.eqb Pos.eqb orb];
+    unfold S_ObjectKey in *; replace (s =? 1) with false by lia; reflexivity.
+Qed.
+
+Lemma steps_st_run d : forall tr p, steps d p tr ->
+  st_run (pst p) (grammars tr) = Some (pst (last_parser p tr)).
+Proof.
+  induction tr as [|[u p'] tr IH]; intros p Hs; [reflexivity|].
+  destruct Hs as [Hs Hrest]. cbn [snd] in *.
+  destruct Hs as (u0 & p0 & E0 & _ & _ & _ & Hrel & _). inversion E0; subst u0 p0.
+  cbn [grammars map fst st_run]. rewrite (st_rel_next _ _ _ Hrel). rewrite last_parser_cons.
+  apply (IH p' Hrest).
+Qed.
+
+Theorem json_state_machine_proof : forall d n tr, trace n (json_init d) = Some tr ->
+  st_run [S_Value] (grammars tr) = Some (pst (last_parser (json_init d) tr)).
+Proof.
+  intros d n tr E. destruct (trace_steps_of d n _ tr (json_inv_init d) E) as [_ Hs].
+  apply (steps_st_run d tr _ Hs).
+Qed.
